@@ -145,6 +145,27 @@ def _skippable_in_loop(cfg, bb):
     return False
 
 
+def _loop_unconditional(cfg, bb):
+    """The loop containing bb is entered on every path from the function entry to a return."""
+    heads = set()
+    for (tail, head) in cfg.back_edges():
+        body = {head, tail}
+        work = [tail]
+        while work:
+            x = work.pop()
+            if x == head:
+                continue
+            for p in cfg.pred[x]:
+                if p not in body:
+                    body.add(p)
+                    work.append(p)
+        if bb in body:
+            heads.add(head)
+    if not heads:
+        return False
+    return cfg.all_paths_pass_through(0, cfg.returns, heads)
+
+
 def run_on(fb, chk, tag=""):
     try:
         ch, reg = handler_views(fb)
@@ -174,6 +195,8 @@ def run_on(fb, chk, tag=""):
                     probs.append("%s is not applied to every ring" % c["name"])
                 elif _skippable_in_loop(m.cfg, bb):
                     probs.append("%s is skipped for some rings (an iteration of the loop over all rings can avoid it)" % c["name"])
+                elif name == "reset_device" and not _loop_unconditional(m.cfg, bb):
+                    probs.append("the loop that applies %s to all rings is itself conditional: RESET_DEVICE can succeed with the rings left as they were" % c["name"])
         if name == "set_features":
             for (bb, t, c) in muts:
                 gs = [a for a in m.atoms_at(bb) if a[0] == "cmp" and a[1] == "Eq" and const_eval(fb, m.sym, a[3]) == 0
@@ -237,6 +260,31 @@ def run_on(fb, chk, tag=""):
                       "%s changes %s (%s) and can return without updating the ring's epoll registration: the worker keeps polling the old "
                       "descriptor set (a kick on a newly installed descriptor of a started ring is never dispatched)"
                       % (f.short, c["name"], arg), f.loc(t["line"]))
+    # ------------------------------------------------------------------ T3: who may change the epoll registration
+    # Only the control path's registration update (and the listener/exit-event API of the worker object itself) adds
+    # or removes event sources.  A second writer - e.g. the worker un-registering a ring it found disabled - races with
+    # the control thread: its stale decision can undo the registration made by a later SET_VRING_ENABLE 1.
+    allowed = {reg.key}
+    for g in fb.find(self_adt="VringEpollHandler"):
+        if g.name in ("register_listener", "unregister_listener", "new", "register_event", "unregister_event"):
+            allowed.add(g.key)
+    nw = 0
+    for g in fb.fns.values():
+        if g.crate != "vhost_user_backend" or "::tests::" in g.key or "/tests/" in (g.file or ""):
+            continue
+        for bb, t in g.calls():
+            c = callee_of(t)
+            if c is None or c.get("name") not in ("register_event", "unregister_event"):
+                continue
+            if not (resolved(c).get("self_adt") or c.get("self_adt") or "").endswith("VringEpollHandler"):
+                continue
+            nw += 1
+            chk.check(g.key in allowed, "T3", "%swriter:%s:%s" % (tag, g.short, c["name"]),
+                      "registration changed by the control path / listener API only",
+                      "%s calls %s: the worker's epoll set is changed outside the control path's registration update (a stale "
+                      "decision of this second writer can undo a registration made by the control thread, losing every later kick)"
+                      % (g.short, c["name"]), g.loc(t["line"]))
+    chk.check(nw >= 2, "T3", tag + "writers", "%d registration call sites seen" % nw, "no registration call sites found", reg.loc())
     # ------------------------------------------------------------------ T3 / T5
     rm = must_of(fb, reg)
     adds = sites(reg, name="register_event")
